@@ -39,14 +39,13 @@ def gen_module(c):
 
 def cfg(c, nstripes=1, stripe=0, simlen=0, bfs=True):
     s = ("SPECIFICATION Spec\nCONSTANTS\n  NA = %d\n  NTopo = %d\n  RegMasks <- GRegMasks\n  ResMasks <- GResMasks\n  Forced <- GForced\n"
-         "  InfoArrs <- GInfoArrs\n  MaxReg = %d\n  MaxRes = %d\n  MaxAux = %d\n  MaxErr = %d\n  Turns = %s\n  NStripes = %d\n  Stripe = %d\n  SimLen = %d\n"
+         "  InfoArrs <- GInfoArrs\n  MaxReg = %d\n  MaxRes = %d\n  MaxAux = %d\n  MaxErr = %d\n  NStripes = %d\n  Stripe = %d\n  SimLen = %d\n"
          "VIEW View\nCHECK_DEADLOCK FALSE\n"
-         % (c["na"], c["ntopo"], c["maxreg"], c["maxres"], c["maxaux"], c["maxerr"],
-            '{"any"}' if bfs else '{"reg1", "reg2", "reg3", "res", "aux", "err"}', nstripes, stripe, simlen))
+         % (c["na"], c["ntopo"], c["maxreg"], c["maxres"], c["maxaux"], c["maxerr"], nstripes, stripe, simlen))
     if bfs:
-        s += "INVARIANTS TypeOK PropertyHolds LookupHolds XmlStable\nACTION_CONSTRAINT EmitEdge\n"
+        s += "INVARIANTS TypeOK PropertyHolds LookupHolds XmlStable RankStable\nACTION_CONSTRAINT EmitEdge\n"
     else:
-        s += "INVARIANTS TypeOK PropertyHolds XmlStable EmitSim\n"
+        s += "INVARIANTS TypeOK PropertyHolds XmlStable RankStable\n"
     return s
 
 
@@ -131,18 +130,13 @@ def bfs_configs(thorough):
 def sim_configs(thorough, rng):
     cs = []
     pool = [[F1], [F2], [F3], [CA], [CC], [B1], [B2], [F1, CA], [F2, CC], [B1, F2, CC], [CX], [XS], [XN, XS], [F1, F1], [F3, B2, CA, XS]]
-    n = 10 if thorough else 4
+    n = 12 if thorough else 4
     for k in range(n):
-        ntopo = rng.choice([4, 5, 6, 6, 7] if not thorough else [4, 5, 6, 6, 7, 7])
-        na = ntopo + rng.choice([1, 1, 2])
-        if na > 8:
-            na = 8
-        masks = all_masks(na)
-        reg = sorted(rng.sample(masks, min(len(masks), 40)))
-        res = sorted(rng.sample(all_masks(ntopo), min((1 << ntopo) - 1, 12)) + [rng.choice(masks)])
-        infos = rng.sample(pool, 6)
+        ntopo = rng.choice([4, 5, 6, 6, 7])
+        na = min(8, ntopo + rng.choice([1, 1, 2]))
+        infos = rng.sample(pool, 7)
         forced = sorted(set([-1, 0, 1, 2, rng.choice([3, 5, 1000]), rng.choice([-7, 2147483647, 100])]))
-        cs.append(dict(tag="S%d" % k, na=na, ntopo=ntopo, reg=reg, res=sorted(set(res)), forced=forced, infos=infos,
+        cs.append(dict(tag="S%d" % k, na=na, ntopo=ntopo, reg=all_masks(na), res=all_masks(na), forced=forced, infos=infos,
                        maxreg=9, maxres=9, maxaux=9, maxerr=9))
     return cs
 
@@ -225,8 +219,8 @@ def run(ctx, replay=None):
     # (2) random walks of larger models (6-8 atoms, depth 8, dup / XML / refresh / error steps)
     nsim0 = len(behs)
     for c in sim_configs(thorough, rng):
-        num = 1500 if thorough else 250
-        out, st = ctx.tlc_mc("MC_CpuKinds_gen", cfg(c, 1, 0, 8, False), tag="sim_" + c["tag"], simulate="num=%d" % num, depth=9,
+        num = 400 if thorough else 75          # per simulation worker
+        out, st = ctx.tlc_mc("MC_CpuKinds_gen", cfg(c, 1, 0, 8, False), tag="sim_" + c["tag"], simulate="num=%d" % num, depth=10,
                              extra_modules=[("MC_CpuKinds_gen.tla", gen_module(c))], timeout=900, workers=4)
         if st["error"]:
             raise vlib.Infra("simulation of MC_CpuKinds (%s) failed: %s\n%s" % (c["tag"], st["error"], out[-2500:]))
